@@ -477,4 +477,25 @@ example : parseW true (layout false false (.bin .minus (.atom 0) (.atom 1))) ≠
 example : layout true false (.bin .and (.group (.bin .or (.atom 0) (.atom 1))) (.atom 2)) =
     [⟨false, .lparen⟩, A' 0, ⟨true, .op .or⟩, A' 1 true, ⟨false, .rparen⟩, ⟨false, .op .and⟩, A' 2] := by decide
 
+
+/-! ### C07 for expressions: the layout is canonical and formatting is idempotent -/
+
+/-- **idempotence**: formatting the formatted expression gives the same layout again (the tree read back from
+the layout is the tree that was laid out) -/
+theorem layout_idempotent (wss first : Bool) (ts : List WTok) (e : E) (r : List WTok) (h : parseW wss ts = some (e, r)) :
+    ∃ e', parseW wss (layout wss first e ++ r) = some (e', r) ∧ layout wss first e' = layout wss first e :=
+  ⟨e, formatted_expression_is_read_back wss first ts e r h, rfl⟩
+
+/-- **canonical form**: outside whitespace-sensitive contexts two accepted texts that differ only in optional
+whitespace (same token kinds) are formatted to the same layout -/
+theorem layout_canonical (first : Bool) (ts ts' : List WTok) (e e' : E) (r r' : List WTok) (hk : er ts = er ts')
+    (h : parseW false ts = some (e, r)) (h' : parseW false ts' = some (e', r')) :
+    layout false first e = layout false first e' := by
+  rw [(layout_irrelevant ts ts' e e' r r' hk h h').1]
+
+/-- the layout has no whitespace before `[`, `]`, `:`, `.` and after a unary operator, and exactly the operator
+spacing of its mode: it is accepted by the parser it came from (no "unexpected whitespace" error is possible) -/
+theorem layout_accepted (wss first : Bool) (e : E) (hw : WF e) : parseW wss (layout wss first e) = some (e, []) := by
+  simpa using layout_reparses wss first e [] hw (Or.inr rfl)
+
 end EvyV.Pratt
